@@ -16,6 +16,9 @@ import CompmechVerif.Spec.Kinematics
 import CompmechVerif.Core.OpSpecTactics
 import CompmechVerif.Core.OpSpecLemmas
 import CompmechVerif.Spec.WholeMatrix
+import CompmechVerif.Spec.WholeMatrixPSD
+import CompmechVerif.Spec.PSDExample
+import CompmechVerif.Spec.LaminateWeight
 import Mathlib.Tactic.FinCases
 import Mathlib.Data.Fintype.Basic
 
@@ -248,5 +251,209 @@ theorem k0y1y2_matrix_kpanel (base : PCtx K) (I : Nat → Integrals K) (hI : ∀
       hF ro co) hi hk hj hl]
   refine congrArg List.sum (List.map_congr_left fun sec _ => ?_)
   exact k0y1y2_entry_eq_hessian_kpanel (ctxAt (sectionBase base s sec) (I sec) i k j l) ha (hb sec) (hr sec) hF α β
+
+
+/-! ### positive semi-definiteness of the whole matrix (over ℝ)
+
+`WeightPSD base.F`: the laminate matrix is positive semi-definite, `eᵀ F e ≥ 0` (C01 `abd_posdef` gives `> 0` for every
+stack of admissible plies: `abd_weight_psd` below).  `RealIntegrals I dx dy X Y x₁ x₂ y₁ y₂`: the one-dimensional
+integrals ARE integrals — `I .x dx d₁ f₁ i d₂ f₂ k = ∫_{x₁}^{x₂} X d₁ f₁ i · X d₂ f₂ k`, same along y with `Y` — of products of
+continuous functions (`X d f i = D^d φ^f_i`), `x₁ ≤ x₂`, `y₁ ≤ y₂`.  Then for ANY series orders `m, n`, ANY placement `row0`
+and ANY amplitude vector `v` over the panel's `num·m·n` degrees of freedom (rows `row0 ≤ r < row0 + num·m·n`),
+`vᵀ K v ≥ 0` for the finalized matrix `K` the kernel + `finalize_symmetric_matrix` deliver.
+(Proof: `vᵀ K v = (ab/4) ∬ ε(v)ᵀ F ε(v)`, Core/OpSpecPSD.lean `hessian_psd`.) -/
+
+open scoped BigOperators
+
+open Compmech.Asm in
+/-- flat plate: the constitutive stiffness matrix is positive semi-definite -/
+theorem k0_matrix_psd_plate (base : PCtx ℝ) (I : Integrals ℝ) (hI : I.Comm) (ha : base.a ≠ 0) (hb : base.b ≠ 0)
+    (hF : IsABD base.F) (hpsd : WeightPSD base.F) (hab : 0 ≤ base.a * base.b)
+    (X Y : Nat → Fld → Nat → ℝ → ℝ) (x₁ x₂ y₁ y₂ : ℝ) (hR : RealIntegrals I .full .full X Y x₁ x₂ y₁ y₂)
+    (m n row0 : Nat) (v : Nat → ℝ) :
+    0 ≤ ∑ r ∈ Finset.range (3 * m * n), ∑ c ∈ Finset.range (3 * m * n),
+      v (row0 + r) * toFun (panelCoo 3 m n row0 Plate.fk0.entry base I) (row0 + r) (row0 + c) * v (row0 + c) :=
+  matrix_psd_of_hessian _ m n row0 fld3 base I .full .full (plateOps base) base.F
+    (fun hi hk hj hl α β => k0_matrix_plate base I hI ha hb hF m n row0 hi hk hj hl α β) X Y x₁ x₂ y₁ y₂ hR hpsd hab v
+
+open Compmech.Asm in
+/-- flat plate, sub-interval `y1 ≤ y ≤ y2` (`Y` integrated over `[y₁, y₂] = [η₁, η₂]`) -/
+theorem k0y1y2_matrix_psd_plate (base : PCtx ℝ) (I : Integrals ℝ) (hI : I.Comm) (ha : base.a ≠ 0) (hb : base.b ≠ 0)
+    (hF : IsABD base.F) (hpsd : WeightPSD base.F) (hab : 0 ≤ base.a * base.b)
+    (X Y : Nat → Fld → Nat → ℝ → ℝ) (x₁ x₂ y₁ y₂ : ℝ) (hR : RealIntegrals I .full .sub X Y x₁ x₂ y₁ y₂)
+    (m n row0 : Nat) (v : Nat → ℝ) :
+    0 ≤ ∑ r ∈ Finset.range (3 * m * n), ∑ c ∈ Finset.range (3 * m * n),
+      v (row0 + r) * toFun (panelCooYX 3 m n row0 Plate.fk0y1y2.entry base I) (row0 + r) (row0 + c) * v (row0 + c) :=
+  matrix_psd_of_hessian _ m n row0 fld3 base I .full .sub (plateOps base) base.F
+    (fun hi hk hj hl α β => k0y1y2_matrix_plate base I hI ha hb hF m n row0 hi hk hj hl α β) X Y x₁ x₂ y₁ y₂ hR hpsd hab v
+
+open Compmech.Asm in
+/-- `w`-only plate model -/
+theorem k0_matrix_psd_plate_w (base : PCtx ℝ) (I : Integrals ℝ) (hI : I.Comm) (ha : base.a ≠ 0) (hb : base.b ≠ 0)
+    (hF : IsABD base.F) (hpsd : WeightPSD base.F) (hab : 0 ≤ base.a * base.b)
+    (X Y : Nat → Fld → Nat → ℝ → ℝ) (x₁ x₂ y₁ y₂ : ℝ) (hR : RealIntegrals I .full .full X Y x₁ x₂ y₁ y₂)
+    (m n row0 : Nat) (v : Nat → ℝ) :
+    0 ≤ ∑ r ∈ Finset.range (1 * m * n), ∑ c ∈ Finset.range (1 * m * n),
+      v (row0 + r) * toFun (panelCoo 1 m n row0 PlateW.fk0.entry base I) (row0 + r) (row0 + c) * v (row0 + c) :=
+  matrix_psd_of_hessian _ m n row0 fld1 base I .full .full (plateOps base) base.F
+    (fun hi hk hj hl α β => k0_matrix_plate_w base I hI ha hb hF m n row0 hi hk hj hl α β) X Y x₁ x₂ y₁ y₂ hR hpsd hab v
+
+open Compmech.Asm in
+theorem k0y1y2_matrix_psd_plate_w (base : PCtx ℝ) (I : Integrals ℝ) (hI : I.Comm) (ha : base.a ≠ 0) (hb : base.b ≠ 0)
+    (hF : IsABD base.F) (hpsd : WeightPSD base.F) (hab : 0 ≤ base.a * base.b)
+    (X Y : Nat → Fld → Nat → ℝ → ℝ) (x₁ x₂ y₁ y₂ : ℝ) (hR : RealIntegrals I .full .sub X Y x₁ x₂ y₁ y₂)
+    (m n row0 : Nat) (v : Nat → ℝ) :
+    0 ≤ ∑ r ∈ Finset.range (1 * m * n), ∑ c ∈ Finset.range (1 * m * n),
+      v (row0 + r) * toFun (panelCooYX 1 m n row0 PlateW.fk0y1y2.entry base I) (row0 + r) (row0 + c) * v (row0 + c) :=
+  matrix_psd_of_hessian _ m n row0 fld1 base I .full .sub (plateOps base) base.F
+    (fun hi hk hj hl α β => k0y1y2_matrix_plate_w base I hI ha hb hF m n row0 hi hk hj hl α β) X Y x₁ x₂ y₁ y₂ hR hpsd hab v
+
+open Compmech.Asm in
+/-- cylindrical panel -/
+theorem k0_matrix_psd_cpanel (base : PCtx ℝ) (I : Integrals ℝ) (hI : I.Comm) (ha : base.a ≠ 0) (hb : base.b ≠ 0) (hr : base.r ≠ 0)
+    (hF : IsABD base.F) (hpsd : WeightPSD base.F) (hab : 0 ≤ base.a * base.b)
+    (X Y : Nat → Fld → Nat → ℝ → ℝ) (x₁ x₂ y₁ y₂ : ℝ) (hR : RealIntegrals I .full .full X Y x₁ x₂ y₁ y₂)
+    (m n row0 : Nat) (v : Nat → ℝ) :
+    0 ≤ ∑ r ∈ Finset.range (3 * m * n), ∑ c ∈ Finset.range (3 * m * n),
+      v (row0 + r) * toFun (panelCoo 3 m n row0 CPanel.fk0.entry base I) (row0 + r) (row0 + c) * v (row0 + c) :=
+  matrix_psd_of_hessian _ m n row0 fld3 base I .full .full (cpanelOps base) base.F
+    (fun hi hk hj hl α β => k0_matrix_cpanel base I hI ha hb hr hF m n row0 hi hk hj hl α β) X Y x₁ x₂ y₁ y₂ hR hpsd hab v
+
+open Compmech.Asm in
+theorem k0y1y2_matrix_psd_cpanel (base : PCtx ℝ) (I : Integrals ℝ) (hI : I.Comm) (ha : base.a ≠ 0) (hb : base.b ≠ 0) (hr : base.r ≠ 0)
+    (hF : IsABD base.F) (hpsd : WeightPSD base.F) (hab : 0 ≤ base.a * base.b)
+    (X Y : Nat → Fld → Nat → ℝ → ℝ) (x₁ x₂ y₁ y₂ : ℝ) (hR : RealIntegrals I .full .sub X Y x₁ x₂ y₁ y₂)
+    (m n row0 : Nat) (v : Nat → ℝ) :
+    0 ≤ ∑ r ∈ Finset.range (3 * m * n), ∑ c ∈ Finset.range (3 * m * n),
+      v (row0 + r) * toFun (panelCooYX 3 m n row0 CPanel.fk0y1y2.entry base I) (row0 + r) (row0 + c) * v (row0 + c) :=
+  matrix_psd_of_hessian _ m n row0 fld3 base I .full .sub (cpanelOps base) base.F
+    (fun hi hk hj hl α β => k0y1y2_matrix_cpanel base I hI ha hb hr hF m n row0 hi hk hj hl α β) X Y x₁ x₂ y₁ y₂ hR hpsd hab v
+
+open Compmech.Asm in
+/-- conical panel: a finite sum over the constant-radius sections of positive semi-definite forms; section `sec` has its own
+integrals (`X sec` over `[x₁ sec, x₂ sec] = [ξ₁, ξ₂]` of the section) and width `(sectionBase base s sec).b` -/
+theorem k0_matrix_psd_kpanel (base : PCtx ℝ) (I : Nat → Integrals ℝ) (hI : ∀ sec, (I sec).Comm) (s : Nat)
+    (ha : base.a ≠ 0) (hb : ∀ sec, (sectionBase base s sec).b ≠ 0) (hr : ∀ sec, (sectionBase base s sec).r ≠ 0)
+    (hF : IsABD base.F) (hpsd : WeightPSD base.F) (hab : ∀ sec, sec < s → 0 ≤ base.a * (sectionBase base s sec).b)
+    (X Y : Nat → Nat → Fld → Nat → ℝ → ℝ) (x₁ x₂ y₁ y₂ : Nat → ℝ)
+    (hR : ∀ sec, sec < s → RealIntegrals (I sec) .sub .full (X sec) (Y sec) (x₁ sec) (x₂ sec) (y₁ sec) (y₂ sec))
+    (m n row0 : Nat) (v : Nat → ℝ) :
+    0 ≤ ∑ r ∈ Finset.range (3 * m * n), ∑ c ∈ Finset.range (3 * m * n),
+      v (row0 + r) * toFun (conePanelCoo s 3 m n row0 KPanel.fk0.entry base I) (row0 + r) (row0 + c) * v (row0 + c) :=
+  matrix_psd_of_hessian_sections _ s m n row0 fld3 (sectionBase base s) I .sub .full
+    (fun sec => kpanelOps (sectionBase base s sec)) (fun _ => base.F)
+    (fun hi hk hj hl α β => k0_matrix_kpanel base I hI s ha hb hr hF m n row0 hi hk hj hl α β)
+    X Y x₁ x₂ y₁ y₂ hR (fun _ _ => hpsd) hab v
+
+open Compmech.Asm in
+theorem k0y1y2_matrix_psd_kpanel (base : PCtx ℝ) (I : Nat → Integrals ℝ) (hI : ∀ sec, (I sec).Comm) (s : Nat)
+    (ha : base.a ≠ 0) (hb : ∀ sec, (sectionBase base s sec).b ≠ 0) (hr : ∀ sec, (sectionBase base s sec).r ≠ 0)
+    (hF : IsABD base.F) (hpsd : WeightPSD base.F) (hab : ∀ sec, sec < s → 0 ≤ base.a * (sectionBase base s sec).b)
+    (X Y : Nat → Nat → Fld → Nat → ℝ → ℝ) (x₁ x₂ y₁ y₂ : Nat → ℝ)
+    (hR : ∀ sec, sec < s → RealIntegrals (I sec) .sub .sub (X sec) (Y sec) (x₁ sec) (x₂ sec) (y₁ sec) (y₂ sec))
+    (m n row0 : Nat) (v : Nat → ℝ) :
+    0 ≤ ∑ r ∈ Finset.range (3 * m * n), ∑ c ∈ Finset.range (3 * m * n),
+      v (row0 + r) * toFun (conePanelCoo s 3 m n row0 KPanel.fk0y1y2.entry base I) (row0 + r) (row0 + c) * v (row0 + c) :=
+  matrix_psd_of_hessian_sections _ s m n row0 fld3 (sectionBase base s) I .sub .sub
+    (fun sec => kpanelOps (sectionBase base s sec)) (fun _ => base.F)
+    (fun hi hk hj hl α β => k0y1y2_matrix_kpanel base I hI s ha hb hr hF m n row0 hi hk hj hl α β)
+    X Y x₁ x₂ y₁ y₂ hR (fun _ _ => hpsd) hab v
+
+open Compmech.Laminate in
+/-- The two hypotheses on the weight are what C01 delivers: the `ABD` matrix of EVERY non-empty stack of admissible plies with
+positive thicknesses (hypotheses of C01 `abd_posdef`), read as the weight `F[p, q]`, has the `IsABD` shape and is positive
+semi-definite (indeed definite). -/
+theorem abd_weight_psd (ps : List (PlyIn ℝ)) (ms : List (MatProps ℝ)) (plies : List (Ply ℝ)) (offset : ℝ)
+    (hne : ps ≠ [])
+    (hlen : ms.length = ps.length)
+    (hplies : plies = (List.zip ps ms).map fun pm => ⟨pm.1.t, rotQ pm.1.c pm.1.s (planeStressQ pm.2)⟩)
+    (hadm : ∀ m ∈ ms, Admissible m)
+    (hcs : ∀ p ∈ ps, p.c ^ 2 + p.s ^ 2 = 1 ∧ 0 < p.t) :
+    IsABD (abdWeight (abd plies offset)) ∧ WeightPSD (abdWeight (abd plies offset)) :=
+  ⟨abdWeight_isABD _, abdWeight_psd_of_posdef _ (abd_posdef_aux ps ms plies offset hne hlen hplies hadm hcs)⟩
+
+open Compmech.Laminate in
+/-- non-vacuity of `abd_weight_psd`: a two-ply unsymmetric stack (angles with `cos, sin = 3/5, 4/5` and `1, 0`) -/
+example : ∃ F : Fin 6 → Fin 6 → ℝ, IsABD F ∧ WeightPSD F :=
+  let m : MatProps ℝ := ⟨142, 8, 3/10, 5, 5, 3, 8, 3/10, 3/10⟩
+  let ps : List (PlyIn ℝ) := [⟨3/5, 4/5, 1/8, []⟩, ⟨1, 0, 1/4, []⟩]
+  ⟨_, abd_weight_psd ps [m, m] _ (1/20) (by simp [ps]) rfl rfl
+    (by intro m' hm'
+        have : m' = m := by simpa [m] using hm'
+        subst this
+        unfold Admissible MatProps.nu21; norm_num [m])
+    (by intro p hp
+        simp only [ps, List.mem_cons, List.not_mem_nil, or_false] at hp
+        rcases hp with rfl | rfl <;> norm_num)⟩
+
+/-! Non-vacuity: the instance of Spec/PSDExample.lean (`a = b = 2`, `r = 1`, `sin α = −1/2`, identity laminate matrix,
+`mu = h = 1`, `d = 1/10`; the integrals of products of the monomials `t^(i+d)` over `[−1, 1]`) meets all hypotheses of every
+theorem of this section, for all `m, n, row0, v` (and any number of sections). -/
+
+open Compmech.Asm PSDExample in
+example (m n row0 : Nat) (v : Nat → ℝ) :
+    0 ≤ ∑ r ∈ Finset.range (3 * m * n), ∑ c ∈ Finset.range (3 * m * n),
+      v (row0 + r) * toFun (panelCoo 3 m n row0 Plate.fk0.entry unitBase monoI) (row0 + r) (row0 + c) * v (row0 + c) :=
+  k0_matrix_psd_plate unitBase monoI monoI_comm (by norm_num [unitBase]) (by norm_num [unitBase]) unitF_isABD unitF_psd
+    (by norm_num [unitBase]) mono mono (-1) 1 (-1) 1 (monoI_real _ _) m n row0 v
+
+open Compmech.Asm PSDExample in
+example (m n row0 : Nat) (v : Nat → ℝ) :
+    0 ≤ ∑ r ∈ Finset.range (3 * m * n), ∑ c ∈ Finset.range (3 * m * n),
+      v (row0 + r) * toFun (panelCooYX 3 m n row0 Plate.fk0y1y2.entry unitBase monoI) (row0 + r) (row0 + c) * v (row0 + c) :=
+  k0y1y2_matrix_psd_plate unitBase monoI monoI_comm (by norm_num [unitBase]) (by norm_num [unitBase]) unitF_isABD unitF_psd
+    (by norm_num [unitBase]) mono mono (-1) 1 (-1) 1 (monoI_real _ _) m n row0 v
+
+open Compmech.Asm PSDExample in
+example (m n row0 : Nat) (v : Nat → ℝ) :
+    0 ≤ ∑ r ∈ Finset.range (1 * m * n), ∑ c ∈ Finset.range (1 * m * n),
+      v (row0 + r) * toFun (panelCoo 1 m n row0 PlateW.fk0.entry unitBase monoI) (row0 + r) (row0 + c) * v (row0 + c) :=
+  k0_matrix_psd_plate_w unitBase monoI monoI_comm (by norm_num [unitBase]) (by norm_num [unitBase]) unitF_isABD unitF_psd
+    (by norm_num [unitBase]) mono mono (-1) 1 (-1) 1 (monoI_real _ _) m n row0 v
+
+open Compmech.Asm PSDExample in
+example (m n row0 : Nat) (v : Nat → ℝ) :
+    0 ≤ ∑ r ∈ Finset.range (1 * m * n), ∑ c ∈ Finset.range (1 * m * n),
+      v (row0 + r) * toFun (panelCooYX 1 m n row0 PlateW.fk0y1y2.entry unitBase monoI) (row0 + r) (row0 + c) * v (row0 + c) :=
+  k0y1y2_matrix_psd_plate_w unitBase monoI monoI_comm (by norm_num [unitBase]) (by norm_num [unitBase]) unitF_isABD unitF_psd
+    (by norm_num [unitBase]) mono mono (-1) 1 (-1) 1 (monoI_real _ _) m n row0 v
+
+open Compmech.Asm PSDExample in
+example (m n row0 : Nat) (v : Nat → ℝ) :
+    0 ≤ ∑ r ∈ Finset.range (3 * m * n), ∑ c ∈ Finset.range (3 * m * n),
+      v (row0 + r) * toFun (panelCoo 3 m n row0 CPanel.fk0.entry unitBase monoI) (row0 + r) (row0 + c) * v (row0 + c) :=
+  k0_matrix_psd_cpanel unitBase monoI monoI_comm (by norm_num [unitBase]) (by norm_num [unitBase]) (by norm_num [unitBase]) unitF_isABD unitF_psd
+    (by norm_num [unitBase]) mono mono (-1) 1 (-1) 1 (monoI_real _ _) m n row0 v
+
+open Compmech.Asm PSDExample in
+example (m n row0 : Nat) (v : Nat → ℝ) :
+    0 ≤ ∑ r ∈ Finset.range (3 * m * n), ∑ c ∈ Finset.range (3 * m * n),
+      v (row0 + r) * toFun (panelCooYX 3 m n row0 CPanel.fk0y1y2.entry unitBase monoI) (row0 + r) (row0 + c) * v (row0 + c) :=
+  k0y1y2_matrix_psd_cpanel unitBase monoI monoI_comm (by norm_num [unitBase]) (by norm_num [unitBase]) (by norm_num [unitBase]) unitF_isABD unitF_psd
+    (by norm_num [unitBase]) mono mono (-1) 1 (-1) 1 (monoI_real _ _) m n row0 v
+
+open Compmech.Asm PSDExample in
+example (s m n row0 : Nat) (v : Nat → ℝ) :
+    0 ≤ ∑ r ∈ Finset.range (3 * m * n), ∑ c ∈ Finset.range (3 * m * n),
+      v (row0 + r) * toFun (conePanelCoo s 3 m n row0 KPanel.fk0.entry unitBase fun _ => monoI) (row0 + r) (row0 + c)
+        * v (row0 + c) :=
+  k0_matrix_psd_kpanel unitBase (fun _ => monoI) (fun _ => monoI_comm) s (by norm_num [unitBase])
+    (fun sec => (section_b_pos s sec).ne')
+    (fun sec => (section_r_pos s sec).ne') unitF_isABD unitF_psd
+    (fun sec _ => mul_nonneg (by norm_num [unitBase]) (section_b_pos s sec).le)
+    (fun _ => mono) (fun _ => mono) (fun _ => -1) (fun _ => 1) (fun _ => -1) (fun _ => 1) (fun _ _ => monoI_real _ _)
+    m n row0 v
+
+open Compmech.Asm PSDExample in
+example (s m n row0 : Nat) (v : Nat → ℝ) :
+    0 ≤ ∑ r ∈ Finset.range (3 * m * n), ∑ c ∈ Finset.range (3 * m * n),
+      v (row0 + r) * toFun (conePanelCoo s 3 m n row0 KPanel.fk0y1y2.entry unitBase fun _ => monoI) (row0 + r) (row0 + c)
+        * v (row0 + c) :=
+  k0y1y2_matrix_psd_kpanel unitBase (fun _ => monoI) (fun _ => monoI_comm) s (by norm_num [unitBase])
+    (fun sec => (section_b_pos s sec).ne')
+    (fun sec => (section_r_pos s sec).ne') unitF_isABD unitF_psd
+    (fun sec _ => mul_nonneg (by norm_num [unitBase]) (section_b_pos s sec).le)
+    (fun _ => mono) (fun _ => mono) (fun _ => -1) (fun _ => 1) (fun _ => -1) (fun _ => 1) (fun _ _ => monoI_real _ _)
+    m n row0 v
 
 end Compmech.Panel.C02
